@@ -224,9 +224,24 @@ fn probe_case() -> BoxedStrategy<ProbeCase> {
                 exchange,
             }
         });
-    let deep = (20u8..=100, proptest::collection::vec((0u8..3, any::<bool>(), proptest::bool::weighted(0.15)), 16..40), any::<bool>(), proptest::bool::weighted(0.3))
-        .prop_map(|(vars, spec, memo_first, reimport)| ProbeCase::Deep { vars, spec, memo_first, reimport });
-    prop_oneof![10 => ops, 10 => adf, 1 => deep].boxed()
+    prop_oneof![10 => ops, 10 => adf, 1 => probe_deep_case()].boxed()
+}
+
+/// deep diagrams for the probes and for C13: 20..100 variables, depths around 64 (where counts stop fitting) favoured
+pub fn probe_deep_case() -> BoxedStrategy<ProbeCase> {
+    (
+        prop_oneof![2 => 20u8..=100, 3 => 62u8..=68],
+        // skipped variables are rare in half of the cases so that the depth is the number of variables
+        prop_oneof![
+            proptest::collection::vec((0u8..3, any::<bool>(), proptest::bool::weighted(0.15)), 16..40),
+            proptest::collection::vec((0u8..3, any::<bool>(), Just(false)), 16..40),
+            proptest::collection::vec((0u8..2, any::<bool>(), Just(false)), 16..40),
+        ],
+        any::<bool>(),
+        proptest::bool::weighted(0.3),
+    )
+        .prop_map(|(vars, spec, memo_first, reimport)| ProbeCase::Deep { vars, spec, memo_first, reimport, fits_only: false })
+        .boxed()
 }
 
 pub fn c12(tier: Tier) -> PropSpec {
